@@ -954,6 +954,10 @@ class Backend:
                 if comp.language in LANGS_CANT_UNITY:
                     sources += srcs
                     continue
+                # Assembly and LLVM IR are compiled one by one in unity builds too
+                alone = [s for s in srcs if compilers.is_assembly(s) or compilers.is_llvm_ir(s)]
+                sources += alone
+                srcs = [s for s in srcs if s not in alone]
                 for i in range((len(srcs) + unity_size - 1) // unity_size):
                     _src = self.get_unity_source_file(extobj.target,
                                                       comp.get_default_suffix(), i)
